@@ -351,9 +351,10 @@ Definition opt_anchor (ks : kinds) (k : N) (p : prog (option A)) : prog (option 
 
 (** ** remeshing/swap.rs *)
 Definition restore_anchor (n : N) (d : N) (oa : option A) : prog unit :=
+  vid <- vertex_id_tx n d ;;
   match oa with
-  | Some a => vid <- vertex_id_tx n d ;; write_attr KVA vid a
-  | None => Ret tt
+  | Some a => write_attr KVA vid a
+  | None => remove_attr KVA vid ;;; Ret tt
   end.
 Definition restore_vertex (n : N) (d : N) (ov : option V) : prog unit :=
   match ov with
@@ -384,7 +385,9 @@ Definition swap_edge (n : N) (ks : kinds) (e : N) : prog unit :=
   one_sew n ks r b0l ;;; one_sew n ks b0l b1r ;;; one_sew n ks b1r r ;;;
   (* the corners are put back under the new vertex ids *)
   restore_vertex n b1r va ;;; restore_vertex n b1l vb ;;; restore_vertex n l vc ;;; restore_vertex n r vd ;;;
-  restore_anchor n b1r aa ;;; restore_anchor n b1l ab ;;; restore_anchor n l ac ;;; restore_anchor n r ad.
+  if has_kind ks KVA then
+    restore_anchor n b1r aa ;;; restore_anchor n b1l ab ;;; restore_anchor n l ac ;;; restore_anchor n r ad
+  else Ret tt.
 
 (** ** remeshing/cut.rs *)
 
